@@ -54,16 +54,26 @@ def generate(obs=None):
          "pub fn dispatch<S: Src>(name: &str, s: &mut S) -> bool {",
          "    match name {"]
     for o in obs:
+        if o["engine"] == "native":
+            d.append('        "%s" => crate::ob::%s(s),' % (o["name"], o["fn"]))
         if o["engine"] != "kani":
             continue
-        k.append("#[kani::proof]")
+        attrs = ["#[kani::proof]"]
         if o["unwind"] is not None:
-            k.append("#[kani::unwind(%d)]" % o["unwind"])
+            attrs.append("#[kani::unwind(%d)]" % o["unwind"])
         if o["solver"]:
-            k.append("#[kani::solver(%s)]" % o["solver"])
+            attrs.append("#[kani::solver(%s)]" % o["solver"])
         for st in o["stubs"]:
-            k.append("#[kani::stub(%s, %s)]" % (st["target"], st["with"]))
+            attrs.append("#[kani::stub(%s, %s)]" % (st["target"], st["with"]))
+        k.extend(attrs)
         k.append("pub fn %s() {" % harness_name(o["name"]))
+        k.append("    crate::ob::%s(&mut KaniSrc);" % o["fn"])
+        k.append("}")
+        k.append("")
+        # playback variant: identical, vacuity covers switched off
+        k.extend(attrs)
+        k.append("pub fn %s_playback() {" % harness_name(o["name"]))
+        k.append("    unsafe { crate::src::REACH_OFF = true; }")
         k.append("    crate::ob::%s(&mut KaniSrc);" % o["fn"])
         k.append("}")
         k.append("")
@@ -71,7 +81,7 @@ def generate(obs=None):
     d += ["        _ => return false,", "    }", "    true", "}", ""]
     d.append("pub const NAMES: &[&str] = &[")
     for o in obs:
-        if o["engine"] == "kani":
+        if o["engine"] in ("kani", "native"):
             d.append('    "%s",' % o["name"])
     d.append("];")
     _write_if_changed(os.path.join(CONTRACTS, "src", "kani_gen.rs"), "\n".join(k) + "\n")
